@@ -7,9 +7,10 @@
 (* Query.  The statement's clauses (X01_Defs: StepClauses / ObjClauses, the SAME operators the T specification applies to   *)
 (* the real objects) are invariants over the observed values before / after every step, Isolation over all other objects.  *)
 (* Mechanism switches (the configuration `fixed` is the reference; the others are the code as found / mutants):            *)
-(*   ExtReadd   "refuse" | "replace"      a theorem item whose name exists (kernel as found: replace)                      *)
-(*   PutMode    "refuse" | "invalidate" | "stale"   add_theorem on an existing name (as found: replaces, cache kept = stale) *)
-(*   TypeMode   "refuse" | "shadow"       a type item whose name exists with another arity (as found: shadow)              *)
+(*   ExtReadd   "replace" | "refuse"      a theorem item whose name exists (kernel: replace)                               *)
+(*   PutMode    "invalidate" | "stale" | "refuse"   add_theorem on an existing name: replaces it and drops the cached       *)
+(*                                        schematic form (reference) / keeps it (the kernel before the repair) / refuses    *)
+(*   TypeMode   "shadow" | "refuse"       a type item whose name exists with another arity (kernel: shadow; not judged)     *)
 (*   CopyMode   "deep1" | "shared" | "sharecache"   __copy__ copies every cell / none / all but theorems_svar               *)
 (*   AttrMode   "tuple" | "inplace"       attribute values immutable tuples / lists appended in place                      *)
 (* Alphabets (Fams, one chosen by Init): small families of operations so that TLC explores ALL histories up to MaxOps; with Record = TRUE every  *)
@@ -168,6 +169,5 @@ InstalledInOrder == "InstalledInOrder" \notin fails
 PrefixOnRaise == "PrefixOnRaise" \notin fails
 ReaddRefused == "ReaddRefused" \notin fails /\ "RefusalIsTheoryException" \notin fails
 DeterminedByExtensions == "DeterminedByExtensions" \notin fails /\ "MacroFollowsLimit" \notin fails
-\* the reference mechanism never differs from the reference meaning
-NoDivergence == ~dv
+\* dv: the step is not judged or differs from the reference meaning without failing a clause (a type declared again with another arity)
 =============================================================================
